@@ -98,3 +98,132 @@ Section JsonReplay.
     - unfold mk_guns. rewrite repeat_length. apply round_robin_lt. exact Hn.
   Qed.
 End JsonReplay.
+
+(* ---------- the scenario replay of the correspondence run equals its specification ---------- *)
+
+Section ScenReplay.
+  Variable code_of_status : N -> N.
+  Variable respond : sent msg_c -> N.
+
+  Definition all_steps (defs : list cdef) : list step :=
+    map (fun id => step_of (fst id) (snd id)) (combine (seq 0 (length defs)) defs).
+
+  Lemma nth_error_combine_seq {A} (l : list A) i d k :
+    nth_error l i = Some d -> nth_error (combine (seq k (length l)) l) i = Some (k + i, d).
+  Proof.
+    revert i k; induction l as [|x r IH]; intros [|i] k H; cbn in *; try discriminate.
+    - injection H as ->. rewrite Nat.add_0_r. reflexivity.
+    - rewrite (IH i (S k) H). f_equal. f_equal. lia.
+  Qed.
+
+  Lemma step_in_all defs i d : nth_error defs i = Some d -> In (step_of i d) (all_steps defs).
+  Proof.
+    intros H. unfold all_steps. apply in_map_iff. exists (i, d). split; [reflexivity|].
+    apply (nth_error_In _ i). rewrite (nth_error_combine_seq defs i d 0 H). reflexivity.
+  Qed.
+
+  Lemma steps_of_in defs idx : Forall (fun sv : step * bool => In (fst sv) (all_steps defs)) (steps_of defs idx).
+  Proof.
+    induction idx as [|i r IH]; cbn [steps_of]; [constructor|].
+    destruct (nth_error defs i) as [d|] eqn:E; [|exact IH].
+    constructor; [cbn [fst]; apply step_in_all; exact E|exact IH].
+  Qed.
+
+  Lemma with_vars_in defs users : forall sts ctr cur,
+    Forall (fun sv : step * bool => In (fst sv) (all_steps defs)) sts ->
+    Forall (fun sv : step * vars_c => In (fst sv) (all_steps defs)) (with_vars users ctr cur sts).
+  Proof.
+    induction sts as [|[st pp] r IH]; intros ctr cur H; cbn [with_vars]; [constructor|].
+    inversion H as [|x l Hx Hr]; subst. cbn [fst] in Hx.
+    destruct pp; constructor; try exact Hx; apply IH; exact Hr.
+  Qed.
+
+  (* well-formed definitions: distinct call names (the provider's registry is keyed by name) and
+     every metadata block is a map (distinct keys) *)
+  Definition defs_wf (defs : list cdef) : Prop :=
+    NoDup (map cd_name defs) /\ Forall (fun d => NoDup (map fst (cd_meta d))) defs.
+
+  Lemma in_all_steps defs s : In s (all_steps defs) ->
+    exists i d, nth_error defs i = Some d /\ s = step_of i d.
+  Proof.
+    unfold all_steps. intros H. apply in_map_iff in H. destruct H as [[i d] [E Hin]]. cbn in E. subst s.
+    apply In_nth_error in Hin. destruct Hin as [k Hk].
+    assert (Hlen : k < length defs).
+    { pose proof (nth_error_Some (combine (seq 0 (length defs)) defs) k) as X.
+      rewrite Hk in X. rewrite combine_length, seq_length, Nat.min_id in X. apply X. discriminate. }
+    destruct (nth_error defs k) as [d'|] eqn:Ed; [|apply nth_error_None in Ed; lia].
+    rewrite (nth_error_combine_seq defs k d' 0 Ed) in Hk. injection Hk as <- <-. exists k, d'. auto.
+  Qed.
+
+  Lemma NoDup_map_nth_inj {A B} (f : A -> B) (l : list A) i j a b :
+    NoDup (map f l) -> nth_error l i = Some a -> nth_error l j = Some b -> f a = f b -> i = j.
+  Proof.
+    intros Hnd Hi Hj E.
+    apply (proj1 (NoDup_nth_error (map f l)) Hnd i j).
+    - rewrite map_length. apply nth_error_Some. rewrite Hi. discriminate.
+    - rewrite !nth_error_map, Hi, Hj. cbn. f_equal. exact E.
+  Qed.
+
+  Lemma NoDup_fst_meta_functional (md : gmeta) : NoDup (map fst md) -> meta_functional md.
+  Proof.
+    induction md as [|[k t] r IH]; cbn [map fst]; intros Hnd k' t1 t2 H1 H2; [contradiction|].
+    inversion Hnd as [|x l Hn Hr]; subst.
+    destruct H1 as [E1|H1], H2 as [E2|H2].
+    - congruence.
+    - injection E1 as -> ->. exfalso. apply Hn. change k' with (fst (k', t2)). apply in_map. exact H2.
+    - injection E2 as -> ->. exfalso. apply Hn. change k' with (fst (k', t1)). apply in_map. exact H1.
+    - eapply IH; eauto.
+  Qed.
+
+  Lemma steps_wf_of_defs defs : defs_wf defs -> steps_wf (heap_of defs) (all_steps defs).
+  Proof.
+    intros [Hn Hm]. split.
+    - intros s1 s2 H1 H2 E.
+      destruct (in_all_steps defs s1 H1) as [i [d [Hi ->]]].
+      destruct (in_all_steps defs s2 H2) as [j [d' [Hj ->]]].
+      cbn [step_of st_name] in E.
+      assert (i = j) by (eapply (NoDup_map_nth_inj cd_name defs); eauto). subst j.
+      rewrite Hi in Hj. injection Hj as <-. reflexivity.
+    - intros s Hs. destruct (in_all_steps defs s Hs) as [i [d [Hi ->]]].
+      cbn [step_of st_cell]. unfold heap_of, heap_get.
+      rewrite (nth_error_nth (map cd_meta defs) i [] (x := cd_meta d)); [|rewrite nth_error_map, Hi; reflexivity].
+      apply NoDup_fst_meta_functional. rewrite Forall_forall in Hm. apply Hm. eapply nth_error_In; eauto.
+  Qed.
+
+  Notation gun_ok_c h defs timeout := (gun_ok desc_c tmpl_c parse_t_c h (all_steps defs) example_table timeout).
+
+  (* The code-shaped replay (guns with template caches over the shared heap, any shot order) is the
+     specification (every shot rendered from the configured definitions), and the heap it returns
+     is the configured one. *)
+  Lemma scen_model_is_spec users defs scens timeout :
+    defs_wf defs ->
+    forall order guns ctr j,
+    Forall (gun_ok_c (heap_of defs) defs timeout) guns ->
+    Forall (fun i => i < length guns) order ->
+    scen_model users defs scens (heap_of defs) guns ctr j order =
+      (heap_of defs, scen_spec users defs scens timeout (heap_of defs) ctr j order).
+  Proof.
+    intros Hwf. pose proof (steps_wf_of_defs defs Hwf) as Hs.
+    induction order as [|inst rest IH]; intros guns ctr j Hg Ho; cbn [scen_model scen_spec]; [reflexivity|].
+    inversion Ho as [|x l Hi Hrest]; subst.
+    destruct (nth_error scens (Nat.modulo j (length scens))) as [[sname idx]|] eqn:Es.
+    - destruct (nth_error guns inst) as [g|] eqn:Eg; [|apply nth_error_None in Eg; lia].
+      assert (Hgk : gun_ok_c (heap_of defs) defs timeout g) by (rewrite Forall_forall in Hg; apply Hg; eapply nth_error_In; eauto).
+      destruct (shoot_scenario_ok desc_c msg_c tmpl_c vars_c parse_t_c exec_t_c fits_text_c
+                  (heap_of defs) (all_steps defs) example_table timeout sname
+                  (with_vars users ctr None (steps_of defs idx)) Hs
+                  (with_vars_in defs users _ ctr None (steps_of_in defs idx)) g Hgk) as [g' [E Hg']].
+      rewrite E. unfold spec_steps.
+      rewrite (IH (firstn inst guns ++ g' :: skipn (S inst) guns)).
+      + reflexivity.
+      + apply Forall_replace; assumption.
+      + rewrite replace_length; [exact Hrest|exact Hi].
+    - rewrite (IH guns ctr (S j) Hg Hrest). reflexivity.
+  Qed.
+
+  Lemma sguns_ok defs timeout n : Forall (gun_ok_c (heap_of defs) defs timeout) (sguns_of n timeout).
+  Proof.
+    unfold sguns_of. apply Forall_forall. intros g Hg. apply repeat_spec in Hg. subst g.
+    repeat split. apply cache_ok_nil.
+  Qed.
+End ScenReplay.
